@@ -8,4 +8,7 @@ cd "$ROOT/mc" && cargo build --release --offline 2>&1 | tail -3
 if [ -d "$ROOT/mc-loom" ]; then
 	cd "$ROOT/mc-loom" && cargo build --release --offline 2>&1 | tail -3
 fi
+# the same harness with the small smallest index (second part of C10, trace judge of C12)
+cd "$ROOT/mc" && cargo build --release --offline --target-dir "$ROOT/.target/std-small" \
+  --config 'build.rustflags=["--cfg","pdb_verif","--cfg","pdb_verif_small_index"]' 2>&1 | tail -1
 echo "setup done"
